@@ -50,6 +50,28 @@ def check_supervised_premises(chk, rep, repo):
     chk.floor("premise obligations of the supervised clause (from C01-C03's rule sets)", n, 20)
 
 
+def check_metric_purity(rep, repo):
+    """The same pair of samples must get the same distance in the spanning-tree step, in the competition and
+    in predict: no metric (or its decorator) may write through its arguments, which are views of the stored
+    training features."""
+    from ..effects import Effects
+    eff = Effects(repo)
+    fns = list(eff.registry_functions()) + [f for f in eff.funcs.values()
+                                              if ".<locals>." in f.name and f.module == "opfython.utils.decorator"]
+    n = 0
+    for fi in fns:
+        ws = eff.writes.get(fi.fq, {})
+        n += 1
+        if not ws:
+            rep.fn("PURE-metric", fi, f"{fi.qual} does not write through its arguments", True)
+        for p, hits in ws.items():
+            for ev, how in hits:
+                rep.ev("PURE-metric", ev, False, f"argument '{p}' of {fi.qual}: {how}; the stored training features drift "
+                       "with every evaluation, so the three phases see different distances for the same pair")
+    if n < 40:
+        raise AnalysisError(f"only {n} metric functions found")
+
+
 def check(chk, repo):
     chk.explanation = EXPLANATION
     rep = Rep(chk, repo)
@@ -75,6 +97,9 @@ def check(chk, repo):
                "the overridden candidate must be the value tested (strictly) against H.cost[q] and passed to update",
                construct="acceptance after label forcing for " + u.event.text())
     check_supervised_premises(chk, rep, repo)
+    check_metric_purity(rep, repo)
+    from ..rules_heap import check_heap
+    check_heap(rep, repo, "HEAP-")
     # earlier (learning) clusterings are free not to force labels; nothing to check there
     try:
         from ..algebra import check_metric_premise
